@@ -430,8 +430,27 @@ theorem encode_decode_iff_minimal (b : Bytes) :
         have := leBytes_ofLE (a ++ [x])
         simpa using this
 
-/-- T1: `_to_num` is Core's `CScriptNum(vch, fRequireMinimal, nMaxNumSize)`: same refusals, same value -/
-theorem toNum_eq_scriptNum (b : Bytes) (minimal : Bool) (maxSize : Nat) :
+/-- an operand of at most 8 bytes decodes into the int64 range (`encode_num` then cannot refuse it) -/
+theorem decodeNum_range (b : Bytes) (h : b.length ≤ 8) :
+    MIN_SCRIPT_NUM ≤ decodeNum b ∧ decodeNum b ≤ MAX_SCRIPT_NUM := by
+  by_cases hb : b = []
+  · subst hb; simp [decodeNum, MIN_SCRIPT_NUM, MAX_SCRIPT_NUM]
+  · obtain ⟨a, x, rfl⟩ := exists_init_last b hb
+    have hx : x.toNat < 256 := x.toNat_lt
+    have hm := ofLE_lt a
+    have hk : a.length ≤ 7 := by simp at h; omega
+    have hP : 256 ^ a.length ≤ 256 ^ 7 := Nat.pow_le_pow_right (by omega) hk
+    have hr : x.toNat % 128 < 128 := Nat.mod_lt _ (by omega)
+    have hup : 256 ^ a.length * (x.toNat % 128) ≤ 256 ^ a.length * 127 := Nat.mul_le_mul_left _ (by omega)
+    rw [decodeNum_snoc']
+    have e7 : (256 : Nat) ^ 7 = 72057594037927936 := by decide
+    simp only [MIN_SCRIPT_NUM, MAX_SCRIPT_NUM]
+    split <;> omega
+
+/-- T1: `_to_num` is Core's `CScriptNum(vch, fRequireMinimal, nMaxNumSize)`: same refusals, same value — for every
+    operand width up to 8 bytes (the interpreter uses 4 and 5).  From 9 bytes on the two differ: `encode_num` refuses
+    what is not an int64, `CScriptNum` does not look. -/
+theorem toNum_eq_scriptNum (b : Bytes) (minimal : Bool) (maxSize : Nat) (hmax : maxSize ≤ 8) :
     (toNum b minimal maxSize).toOption = (Core.scriptNum b minimal maxSize).toOption := by
   unfold toNum Core.scriptNum
   by_cases hl : b.length > maxSize
@@ -440,7 +459,8 @@ theorem toNum_eq_scriptNum (b : Bytes) (minimal : Bool) (maxSize : Nat) :
     cases minimal with
     | false => simp [Except.toOption, decodeNum_eq_setVch]
     | true =>
-      simp only [Bool.true_and]
+      have hr := decodeNum_range b (by omega)
+      simp only [if_true, encodeNum, hr, and_self, Bool.true_and]
       cases hmin : Core.isMinimallyEncoded b with
       | true =>
         have := (encode_decode_iff_minimal b).mpr hmin
@@ -451,7 +471,6 @@ theorem toNum_eq_scriptNum (b : Bytes) (minimal : Bool) (maxSize : Nat) :
           intro e; have := (encode_decode_iff_minimal b).mp e; rw [hmin] at this; cases this
         rw [decodeNum_eq_setVch] at this
         simp [this, Except.toOption, decodeNum_eq_setVch]
-
 
 /-! ### `encode_num` is `CScriptNum::serialize` -/
 
